@@ -257,8 +257,27 @@ func (s scenario) String() string {
 var byName map[string]tmpl
 var dimIndex map[string]string // family + dimension vector -> template name
 
-// probed on the unchanged tree: these call shapes fail for one request alone (not valid in this language)
-var argsInvalid = map[string]bool{}
+// probed on the unchanged tree: these call shapes fail for one request alone (not valid in this
+// language: spread arguments to static methods / closures / arrow fns lose parameters, named
+// arguments to variadics and through call_user_func are not bound)
+var argsInvalid = map[string]bool{
+	"args:static/mixed-spread":            true,
+	"args:static/spread-literal":          true,
+	"args:static/spread-call":             true,
+	"args:static/spread-call-all":         true,
+	"args:closure/mixed-spread":           true,
+	"args:closure/spread-literal":         true,
+	"args:closure/spread-call":            true,
+	"args:closure/spread-call-all":        true,
+	"args:arrow/mixed-spread":             true,
+	"args:arrow/spread-literal":           true,
+	"args:arrow/spread-call":              true,
+	"args:arrow/spread-call-all":          true,
+	"args:func-variadic/named":            true,
+	"args:func-variadic/named-reordered":  true,
+	"args:call_user_func/named":           true,
+	"args:call_user_func/named-reordered": true,
+}
 
 func init() {
 	templates = append(templates, carryTemplates()...)
